@@ -2,7 +2,9 @@ from __future__ import annotations
 
 from typing import Callable
 
-from ._type_qualifier import Port, Generic
+from ._type_qualifier import Port, Generic, TypeQualifier
+from ._bit import Bit
+from ._bit_vector import BitVector
 from ._collect_ast_and_scope import FunctionDefinition, InstantiatedFunction
 from cohdl.utility.source_location import SourceLocation
 from ._intrinsic import _intrinsic, _intrinsic_replacement, _IntrinsicInlineEntity
@@ -284,6 +286,18 @@ class Entity(Block):
                 try:
                     # try assignment to check if types are compatible
                     info.ports[name] <<= value
+
+                    if info.ports[name].is_output() and isinstance(
+                        value, TypeQualifier
+                    ):
+                        # the connected object receives the value of an output port,
+                        # the assignment must also be possible in that direction
+                        decayed = TypeQualifier.decay(value)
+
+                        if isinstance(decayed, (Bit, BitVector)):
+                            decayed.copy()._assign(
+                                TypeQualifier.decay(info.ports[name])
+                            )
                 except:
                     raise AssertionError(
                         f"assignment to port '{name}' failed (src={value}, target={info.ports[name]})"
